@@ -9,6 +9,8 @@ import Gofasta.Driver.SamVar
 import Gofasta.Driver.C08
 import Gofasta.Driver.Fault
 import Gofasta.Driver.Csv
+import Gofasta.Driver.SamText
+import Gofasta.Driver.GffText
 namespace Gofasta.Driver
 
 def dispatch (c : Case) : Verdict :=
@@ -29,6 +31,8 @@ def dispatch (c : Case) : Verdict :=
   | "EXIT" => runExit c
   | "REORD" => runReord c
   | "CSV" => runCsv c
+  | "SAMTXT" => runSamText c
+  | "GFFTXT" => runGffText c
   | _ => { agree := false, spec := "na", model := "unknown-property" }
 
 end Gofasta.Driver
